@@ -6,6 +6,10 @@
 //	key  <algo> <rootid> <pkg> <name> <cmd> <ins> <files> <outs> <deps> <fp> <multiplatform>
 //	      ins: hex,hex  files: hexpath:hexcontent|hexpath:! (absent)  outs: hextype:hexid
 //	      deps: hex,hex  fp: hexk:hexv
+//	build <algo> <pkg> <hexpath> <hexcontent|!> <hexcontent|!> <hexcmd>
+//	      the path a BUILD takes (execution.NewExecutor -> hashing.NewTargetHasher(graph).SetTargetChangeHash): targets a and b
+//	      of <pkg> both list input <hexpath>, b depends on a; ONE hasher: the file holds the first content (! = absent) when a is
+//	      hashed and the second when b is hashed (a's command rewrote / created / removed it); answers the two keys
 //	hash <algo> <hexbytes>
 //	nocachehash <algo> <hex,hex digests>
 package main
@@ -17,6 +21,7 @@ import (
 	"strings"
 
 	"grog/internal/config"
+	"grog/internal/dag"
 	"grog/internal/hashing"
 	"grog/internal/label"
 	"grog/internal/model"
@@ -82,6 +87,55 @@ func doKey(f []string) string {
 	return "key\t" + k
 }
 
+func doBuild(f []string) string {
+	algo, pkg, p, c1, c2, cmd := f[1], w.Unhex(f[2]), w.Unhex(f[3]), f[4], f[5], w.Unhex(f[6])
+	counter++
+	root := filepath.Join(base, fmt.Sprintf("build-%d", counter))
+	pkgDir := filepath.Join(root, pkg)
+	if err := os.MkdirAll(pkgDir, 0o755); err != nil {
+		return "harness-error " + err.Error()
+	}
+	defer os.RemoveAll(root)
+	put := func(c string) error {
+		fp := filepath.Join(pkgDir, p)
+		if c == "!" {
+			err := os.Remove(fp)
+			if os.IsNotExist(err) {
+				return nil
+			}
+			return err
+		}
+		os.MkdirAll(filepath.Dir(fp), 0o755)
+		return os.WriteFile(fp, []byte(w.Unhex(c)), 0o644)
+	}
+	config.Global.WorkspaceRoot = root
+	config.Global.HashAlgorithm = algo
+	config.Global.OS = "lx"
+	config.Global.Arch = "a64"
+	a := &model.Target{Label: label.TargetLabel{Package: pkg, Name: "a"}, Command: cmd, Inputs: []string{p}}
+	b := &model.Target{Label: label.TargetLabel{Package: pkg, Name: "b"}, Command: cmd, Inputs: []string{p},
+		Dependencies: []label.TargetLabel{a.Label}}
+	g := dag.NewDirectedGraphFromTargets(a, b)
+	if err := g.AddEdge(a, b); err != nil {
+		return "harness-error " + err.Error()
+	}
+	th := hashing.NewTargetHasher(g)
+	if err := put(c1); err != nil {
+		return "harness-error " + err.Error()
+	}
+	if err := th.SetTargetChangeHash(a); err != nil {
+		return "error"
+	}
+	a.OutputHash = "oh1"
+	if err := put(c2); err != nil {
+		return "harness-error " + err.Error()
+	}
+	if err := th.SetTargetChangeHash(b); err != nil {
+		return "error"
+	}
+	return "keys\t" + a.ChangeHash + "\t" + b.ChangeHash
+}
+
 func main() {
 	var err error
 	base, err = os.MkdirTemp("", "grogverif-hk-")
@@ -93,6 +147,8 @@ func main() {
 		switch f[0] {
 		case "key":
 			return doKey(f)
+		case "build":
+			return doBuild(f)
 		case "hash":
 			config.Global.HashAlgorithm = f[1]
 			return "hash\t" + hashing.HashString(w.Unhex(f[2]))
